@@ -265,6 +265,10 @@ fn hs_partition() -> BoxedStrategy<Partition> {
     .boxed()
 }
 
+pub fn fuzz_strategy() -> BoxedStrategy<Case> {
+    prop_oneof![case_strategy(false), case_strategy(true)].boxed()
+}
+
 fn case_strategy(original: bool) -> BoxedStrategy<Case> {
     let orig = if original { prop_oneof![Just(Some(Role::Client)), Just(Some(Role::Server))].boxed() } else { Just(None).boxed() };
     (
